@@ -66,3 +66,23 @@ func (p *Program) wipeSnapshots(extra ...string) {
 	}
 }
 
+
+// withTrim additionally builds the worker's program with -trimpath.
+func (l *Lab) withTrim(c *vkit.Ctx) {
+	t, err := Build(l.P.Root, l.P.Shape, "trim", "-trimpath")
+	if err != nil {
+		c.Inconclusive("cannot build generated program with -trimpath: " + err.Error())
+		return
+	}
+	l.Trim = t
+}
+
+// prog picks the binary set for a case: the -trimpath build for a quarter of the
+// cases (the child runs from the package directory, which is where -trimpath builds
+// resolve relative snapshot directories).
+func (l *Lab) prog(caseIdx int) (*Program, bool) {
+	if l.Trim != nil && caseIdx%4 == 3 {
+		return l.Trim, true
+	}
+	return l.P, false
+}
